@@ -827,7 +827,7 @@ func c14PolicyJSONDecodeCase(key string, js string, labels []string) *c14Case {
 	c := &c14Case{Key: key, Kind: "decode-policy-json", Labels: labels, Nontrivial: true, Input: js}
 	c.Run = func(rep int, sh *rand.Rand) map[string]string {
 		obs := map[string]string{}
-		var p cedar.Policy
+		p := c14DestPolicy(rep) // odd repetitions: a receiver that already holds a policy (c14_reuse.go)
 		var derr error
 		if pn := vh.Protect(func() { derr = p.UnmarshalJSON([]byte(js)) }); pn != nil {
 			obs["decode"] = fmt.Sprintf("panic: %v", pn)
@@ -862,7 +862,7 @@ func c14PolicySetJSONDecodeCase(key string, js string, in *c14AuthzInput) *c14Ca
 	c := &c14Case{Key: key, Kind: "decode-policyset-json", Nontrivial: true, Input: js}
 	c.Run = func(rep int, sh *rand.Rand) map[string]string {
 		obs := map[string]string{}
-		var set cedar.PolicySet
+		set := c14DestPolicySet(rep) // odd repetitions: a receiver that already holds policies (c14_reuse.go)
 		var derr error
 		if pn := vh.Protect(func() { derr = set.UnmarshalJSON([]byte(js)) }); pn != nil {
 			obs["decode"] = fmt.Sprintf("panic: %v", pn)
@@ -943,7 +943,7 @@ func c14EntitiesJSONDecodeCase(key string, js string) *c14Case {
 	return &c14Case{Key: key, Kind: "decode-entities-json", Nontrivial: true, Input: js,
 		Run: func(rep int, sh *rand.Rand) map[string]string {
 			obs := map[string]string{}
-			var em types.EntityMap
+			em := c14DestEntityMap(rep) // odd repetitions: a destination that already holds entities (c14_reuse.go)
 			var derr error
 			if pn := vh.Protect(func() { derr = json.Unmarshal([]byte(js), &em) }); pn != nil {
 				obs["decode"] = fmt.Sprintf("panic: %v", pn)
@@ -969,7 +969,7 @@ func c14ValueJSONDecodeCase(key string, js string) *c14Case {
 	return &c14Case{Key: key, Kind: "decode-value-json", Nontrivial: true, Input: js,
 		Run: func(rep int, sh *rand.Rand) map[string]string {
 			obs := map[string]string{}
-			var v types.Value
+			v := c14DestValue(rep) // odd repetitions: a variable that already holds a value (c14_reuse.go)
 			var derr error
 			if pn := vh.Protect(func() { derr = types.UnmarshalJSON([]byte(js), &v) }); pn != nil {
 				obs["decode"] = fmt.Sprintf("panic: %v", pn)
@@ -1000,7 +1000,7 @@ func c14SchemaDecodeCase(key string, doc string, isJSON bool) *c14Case {
 	return &c14Case{Key: key, Kind: kind, Nontrivial: true, Input: doc,
 		Run: func(rep int, sh *rand.Rand) map[string]string {
 			obs := map[string]string{}
-			var s schema.Schema
+			s := c14DestSchema(rep) // odd repetitions: a Schema that already holds another schema (c14_reuse.go)
 			var derr error
 			if pn := vh.Protect(func() {
 				if isJSON {
@@ -1042,7 +1042,7 @@ func c14EntitiesSchemaDecodeCase(key, schemaText, js string) *c14Case {
 			}
 			rs = r
 		}
-		var em exptypes.EntityMap
+		em := exptypes.EntityMap(c14DestEntityMap(rep)) // odd repetitions: a destination that already holds entities
 		var derr error
 		if pn := vh.Protect(func() { derr = em.UnmarshalJSONWithSchema([]byte(js), rs) }); pn != nil {
 			obs["decode"] = fmt.Sprintf("panic: %v", pn)
@@ -1258,6 +1258,10 @@ func c14Cases(seed int64, tier string) []*c14Case {
 		for i := 0; i < 6; i++ {
 			cases = append(cases, c14EntityMapMarshalCase(fmt.Sprintf("mentities-ambiguous-%d", i), es[i:i+6]))
 		}
+		// the same entities with Entity.MarshalJSON of EVERY member observed (parents order), and generated
+		// look-alike groups: all splits of a random string / all `::` splits of a random path (c14_reuse.go)
+		cases = append(cases, c14EntityAllMarshalCase("mentities-ambiguous-all-entities", es))
+		cases = append(cases, c14AmbiguousCases(g, pick(12, 100))...)
 	}
 	var someValues []types.Value
 	for i := 0; i < pick(200, 1000); i++ {
